@@ -9,6 +9,7 @@ CONSTANT MaxStale = 0
 CONSTANT MaySilence = FALSE
 CONSTANT ConfPerTwice <- TrConfPerTwice
 CONSTANT FlushAfterConfirm = FALSE
+CONSTANT FlushAt = "acquired"
 INVARIANT NotConsumed
 CHECK_DEADLOCK FALSE
 CONSTRAINT Progress
